@@ -247,6 +247,24 @@ def check_string(rec, pvl, dialect, g, d, enc, s, parsers=None):
             preds[p] = None
             bad("predicate-raised", {"predicate": p, "exc": type(e).__name__},
                 repr(e))
+    # the decoder-only argument form: the token takes the decoder's grammar
+    # (documented), so it must answer like the fully specified token
+    try:
+        t2 = Token(s, decoder=d)
+        for p, v in preds.items():
+            if v is None:
+                continue
+            v2 = bool(getattr(t2, p)())
+            rec.count("decoder_only_token_checks")
+            if v2 != v:
+                bad("token-argument-forms-disagree",
+                    {"predicate": p, "full_form_says": v},
+                    f"Token({s!r}, decoder=d).{p}() = {v2}, "
+                    f"Token({s!r}, grammar=g, decoder=d).{p}() = {v}")
+                break
+    except Exception as e:
+        bad("predicate-raised", {"predicate": "Token(s, decoder=d)",
+                                 "exc": type(e).__name__}, repr(e))
     expect = {
         "is_quoted_string": cls == "quoted",
         "is_numeric": cls in ("based", "decimal"),
@@ -280,7 +298,11 @@ def check_string(rec, pvl, dialect, g, d, enc, s, parsers=None):
         for form, text in (("name", f"{s} = 1\nEND\n"),
                            ("value-then-equals", f"a = {s} = 3\nEND\n"),
                            ("value-then-equals-in-block",
-                            f"GROUP = g\n a = {s} = 3\nEND_GROUP\nEND\n")):
+                            f"GROUP = g\n a = {s} = 3\nEND_GROUP\nEND\n"),
+                           # (the same text between quotes is a string value,
+                           # but still no name)
+                           ("quoted-value-then-equals", f'a = "{s}" = 3\nEND\n'),
+                           ("quoted-value-then-equals", f"a = '{s}'\n = 3\nEND\n")):
             rec.count("parser_level_name_checks")
             try:
                 with common.cpu_limit(20):
@@ -423,7 +445,7 @@ def finish_kwargs(rec, tier):
                            "compared_with_a_pristine_process",
                            "writer_unquoted", "exclusivity_checks",
                            "number_or_time_never_a_name_checks",
-                           "parser_level_name_checks",
+                           "parser_level_name_checks", "decoder_only_token_checks",
                            "class[keyword]", "class[quoted]", "class[based]",
                            "class[decimal]", "class[datetime]",
                            "class[unquoted]", "class[not-a-value]"),
